@@ -413,7 +413,14 @@ def judge_c17(mp: onnx.ModelProto, limit_s: float = 10.0) -> dict:
                 res["inspect_errors"] = n_inspect_err
             finally:
                 res["inspect_events"] = audit.stop()
-            res["proj"] = project_model(model)
+            try:
+                res["proj"] = project_model(model)
+            except Exception as e:  # noqa: BLE001
+                # an object reachable from the returned IR whose public accessors raise (e.g. a half-constructed
+                # node that is still registered as a user of a value): the links of that IR are not consistent
+                res["cls"] = "broken-ir"
+                res["exc"] = f"{type(e).__name__}: {str(e)[:120]}"
+                return res
             # serialize-again fixpoint
             try:
                 p1 = ir.serde.serialize_model(model)
@@ -824,6 +831,8 @@ def _collect_c17(out, j, detail):
         _bump(out["viol"], "C17:file-access:deserialize:" + j["file_events"][0][0], dict(detail, events=j["file_events"][:5]))
     if j["inspect_events"]:
         _bump(out["viol"], "C17:file-access:inspect:" + j["inspect_events"][0][0], dict(detail, events=j["inspect_events"][:5]))
+    if j["cls"] == "broken-ir":
+        _bump(out["viol"], "C17:inconsistent-ir:accessor-raises:" + j["exc"].split(":")[0], dict(detail, error=j["exc"]))
     if j["cls"] == "ir":
         _bump(out["projs"], json.dumps(j["proj"]["o"], sort_keys=True), detail)
         if isinstance(j["fix"], list):
